@@ -21,8 +21,17 @@ from families import common
 
 SOURCES = ["drv_merror.c", "vt.c", "vt_alloc.c", "etermsim.c"]
 EXIT_TIMEOUT = 94
-FIELDS = ["ty", "r", "c", "sn", "st", "grid", "kind", "vec"]
+FIELDS = ["ty", "r", "c", "sn", "st", "grid", "kind", "vec", "ud"]
+
 TYPES = ["T8", "U8", "TE10", "UE10", "T16", "U16", "UE14", "E12"]
+# rate classes: one per type + the unevenly determined column scenarios
+CLASSES = TYPES + ["UE14u1", "UE14u2", "E12u1", "E12u2"]
+
+
+def rate_class(r):
+    if r.get("ud", "-") == "-":
+        return r["ty"]
+    return r["ty"] + ("u1" if r["ud"] == "c1" else "u2")
 
 
 def build(ctx):
@@ -46,9 +55,9 @@ def table(ctx):
 
 
 def row_line(row):
-    return "%d %s %d %d %d %d %s %s %s\n" % (
+    return "%d %s %d %d %d %d %s %s %s %s\n" % (
         row["id"], row["ty"], row["r"], row["c"], row["sn"], row["st"],
-        row["grid"], row["kind"], row["vec"])
+        row["grid"], row["kind"], row["vec"], row.get("ud", "-"))
 
 
 def _stratified(rng, rows, keyfn, n):
@@ -82,7 +91,7 @@ def sample(rows, tier, seed):
     kind = lambda k: [r for r in rows if r["kind"] == k]
     out = _stratified(rng, kind("exact"),
                       lambda r: (r["ty"], r["r"], r["c"], r["grid"],
-                                 r["st"] == 0), n_exact)
+                                 r["st"] == 0, r["ud"]), n_exact)
     out += _stratified(rng, kind("iacc") + kind("irej"),
                        lambda r: (r["ty"], r["kind"], r["grid"], r["vec"],
                                   r["r"], r["c"]), n_interp)
@@ -97,14 +106,14 @@ def sample(rows, tier, seed):
                        lambda r: (r["ty"], r["grid"], r["st"] == 0),
                        64 if quick else 600)
     plan = {}
-    for ty in TYPES:
-        rn = [r for r in rows if r["kind"] == "noisy" and r["ty"] == ty]
-        ro = [r for r in rows if r["kind"] == "outlier" and r["ty"] == ty]
+    for cl in CLASSES:
+        rn = [r for r in rows if r["kind"] == "noisy" and rate_class(r) == cl]
+        ro = [r for r in rows if r["kind"] == "outlier" and rate_class(r) == cl]
         out += _stratified(rng, rn, lambda r: (r["r"], r["c"], r["st"],
-                                               r["grid"]), n_noisy)
+                                               r["grid"], r["ud"]), n_noisy)
         out += _stratified(rng, ro, lambda r: (r["r"], r["c"], r["st"],
-                                               r["grid"]), n_out)
-        plan[ty] = (n_noisy, n_out)
+                                               r["grid"], r["ud"]), n_out)
+        plan[cl] = (n_noisy, n_out)
     rng.shuffle(out)
     return out, plan
 
@@ -124,10 +133,11 @@ def _cfg_of(lines):
 
 
 def _cls(cfg):
-    return "%s:%sx%s:%s:%s:%s:%s" % (
+    return "%s:%sx%s:%s:%s:%s:%s%s" % (
         cfg.get("ty"), cfg.get("r"), cfg.get("c"), cfg.get("grid"),
         cfg.get("kind"), cfg.get("vec"),
-        "tr0" if cfg.get("st") == 0 else "tr")
+        "tr0" if cfg.get("st") == 0 else "tr",
+        "" if cfg.get("ud", "-") == "-" else ":" + cfg.get("ud"))
 
 
 def issues_from_validation(ctx, res, label):
@@ -220,7 +230,7 @@ def rate_trace(ctx, trace_path, plan, rejected_cases):
     """One Obs per noisy / outlier scenario whose episode was validated, then
     the totals per type.  Pure re-formatting: the spec does the counting."""
     obs = []
-    tot = {ty: [0, 0, 0, 0] for ty in TYPES}
+    tot = {ty: [0, 0, 0, 0] for ty in CLASSES}
     for start, lines in vlib.split_episodes(trace_path):
         m = common.CASE_RE.search(lines[0]) if lines else None
         if not m or m.group(1) in rejected_cases:
@@ -232,9 +242,9 @@ def rate_trace(ctx, trace_path, plan, rejected_cases):
             if ev["kind"] not in ("noisy", "outlier"):
                 continue
             rej = 1 if ev["wret"] == -1 else 0
-            obs.append({"e": "Obs", "ty": ev["ty"], "kind": ev["kind"],
+            obs.append({"e": "Obs", "ty": ev["cls"], "kind": ev["kind"],
                         "rej": rej, "case": m.group(1)})
-            t = tot[ev["ty"]]
+            t = tot[ev["cls"]]
             if ev["kind"] == "noisy":
                 t[0] += 1
                 t[1] += rej
@@ -247,7 +257,7 @@ def rate_trace(ctx, trace_path, plan, rejected_cases):
                              "case": "rate:0:0"}) + "\n")
         for o in obs:
             fp.write(json.dumps(o) + "\n")
-        for ty in TYPES:
+        for ty in CLASSES:
             if ty not in plan:
                 continue
             t = tot[ty]
@@ -265,7 +275,7 @@ def validate_rate(ctx, path):
     issues = []
     with open(path) as fp:
         lines = fp.readlines()
-    for _ in range(len(TYPES) + 1):
+    for _ in range(len(CLASSES) + 1):
         p = os.path.join(ctx.work, "merror-rate-cur.ndjson")
         with open(p, "w") as fp:
             fp.writelines(lines)
